@@ -1,7 +1,7 @@
 #!/bin/bash
 # verify_benign.sh <patch.diff> : applies a behaviour-preserving patch to a scratch copy of /repo, confirms
-# that it builds and that the suite passes, then runs ALL property checks against the copy.  Any exit != 0
-# is a false alarm of the machinery.  The copy lives under /tmp and is removed.
+# that it builds and that the suite passes, then runs ALL property checks against the copy (one load).  Any
+# property with exit != 0 is a false alarm of the machinery.  The copy lives under /tmp and is removed.
 set -u
 patch="$(readlink -f "$1")"
 HERE="$(cd "$(dirname "${BASH_SOURCE[0]}")/.." && pwd)"
@@ -14,13 +14,15 @@ if [ "${SKIP_SUITE:-0}" != 1 ]; then
   fails=$(cd "$tmp/r" && env -u GOFLAGS -u GOSUMDB -u GOTOOLCHAIN go test -vet=off -count=1 ./... 2>&1 | grep -c "^FAIL\|^--- FAIL")
   [ "$fails" -eq 0 ] || { echo "SUITE=fail($fails) $patch"; exit 3; }
 fi
+"$HERE/bin/hlcheck" -prop all -tier quick -repo "$tmp/r" -verif "$HERE" -no-evidence > "$tmp/all.out" 2>&1
 alarms=0
-for p in C01 C02 C03 C04 C05 C06 C07 C08 C09 C10 C11 C12 C13 C14 C15 C16 C17 C18 C19 C20; do
-  ( "$HERE/bin/hlcheck" -prop $p -tier quick -repo "$tmp/r" -verif "$HERE" -no-evidence > "$tmp/$p.out" 2>&1; echo $? > "$tmp/$p.rc" ) &
-done
-wait
-for p in C01 C02 C03 C04 C05 C06 C07 C08 C09 C10 C11 C12 C13 C14 C15 C16 C17 C18 C19 C20; do
-  rc=$(cat "$tmp/$p.rc")
-  if [ "$rc" != 0 ]; then alarms=$((alarms+1)); echo "FALSE-ALARM $p rc=$rc"; grep '^NEW\|hlcheck:' "$tmp/$p.out" | cut -c1-300 | head -4; fi
-done
+cur=""
+while IFS= read -r line; do
+  case "$line" in
+    BEGIN\ *) cur="${line#BEGIN }"; buf="";;
+    NEW\ *) buf="$buf$(echo "$line" | cut -c1-300)"$'\n';;
+    PROP\ *) rc="${line##*rc=}"; if [ "$rc" != 0 ]; then alarms=$((alarms+1)); echo "FALSE-ALARM $cur rc=$rc"; printf "%s" "$buf" | head -4; fi;;
+  esac
+done < "$tmp/all.out"
+grep -q "^PROP C20" "$tmp/all.out" || { alarms=$((alarms+1)); echo "CHECKER-FAILED"; tail -3 "$tmp/all.out"; }
 echo "RESULT alarms=$alarms $(basename $(dirname $patch))"
